@@ -75,6 +75,19 @@ def cycle(d, prefix, root):
         notes += " nondeterministic-write"
     if sx(xser.ldef(d)) != snap:
         notes += " definition-altered-by-write"
+    # the same for an undated definition (its header date comes from the clock at write time, so only the object
+    # is looked at, never the bytes)
+    keep = d.date
+    try:
+        d.date = None
+        snap0 = sx(xser.ldef(d))
+        d.to_xml_tree()
+        if sx(xser.ldef(d)) != snap0:
+            notes += " definition-altered-by-write"
+    except Exception:  # noqa: BLE001
+        notes += " undated-write-failed"
+    finally:
+        d.date = keep
     t1, _ = xmlutil.text_to_sx(g1)
     try:
         d2 = load_text(g1, prefix, root)
